@@ -36,6 +36,23 @@ pub fn run_property(property: &str, tier: Tier) -> i32 {
     report.finish()
 }
 
+/// `mc sweep [quick|thorough]`: every E1 family in one process, every violation of any property reported.  Not a registered
+/// check (its evidence file is evidence/SWEEP.json); used to run the whole engine battery against one modified tree.
+pub fn run_sweep(tier: Tier) -> i32 {
+    let mut report = Report::new("SWEEP", tier, "model_checking");
+    for family in families::ALL_FAMILIES {
+        let mut sub = Report::new("SWEEP", tier, "model_checking");
+        run_family_into(&mut sub, "SWEEP", family, families::build(family, tier), tier);
+        for key in ["states", "transitions", "traces_validated_against_impl", "fair_closures_run"] { if let Some(n) = sub.coverage.get(key).and_then(|v| v.as_u64()) { report.add_count(key, n); } }
+        report.machinery_errors.extend(sub.machinery_errors);
+        report.known_hit.extend(sub.known_hit);
+        for (v, replay) in sub.violations { if !report.violations.iter().any(|(x, _)| x.property == v.property && x.signature == v.signature) { report.violations.push((v, replay)); } }
+    }
+    super::deque::run(&mut report, tier);
+    super::settings::run(&mut report);
+    report.finish()
+}
+
 pub fn run_family_into(report: &mut Report, property: &str, family: &str, configs: Vec<Cfg>, tier: Tier) {
     let known = KnownFindings::load();
     let threads = threads();
